@@ -15,11 +15,30 @@ struct Reg {
     gen: usize,
     /// statistics of the regions this one was merged from
     sources: Option<Sources>,
+    /// since the last clear(): a region that was fresh (Default) at that moment and received the same pushes.
+    /// A cleared region must be indistinguishable from it, also as a source of merge_regions (C08).
+    twin: Option<R>,
 }
 
 impl Reg {
     fn new(r: R, gen: usize) -> Self {
-        Reg { r, issued: vec![], pushes: vec![], gen, sources: None }
+        Reg { r, issued: vec![], pushes: vec![], gen, sources: None, twin: None }
+    }
+    /// pushes `s` into the fresh twin as well; the twin must accept it and answer with the same index
+    fn twin_push(&mut self, s: &[u8], idx: (usize, usize)) -> Result<(), String> {
+        if let Some(t) = &mut self.twin {
+            match guard(|| t.push(s)) {
+                Ok(i) if i == idx => {}
+                Ok(i) => {
+                    return Err(format!(
+                        "push({}) returns index {idx:?} on the cleared region and {i:?} on a fresh region with the same pushes",
+                        show_bytes(s)
+                    ))
+                }
+                Err(p) => return Err(format!("push({}) was accepted by the cleared region but a fresh region with the same pushes panicked: {p}", show_bytes(s))),
+            }
+        }
+        Ok(())
     }
 }
 
@@ -147,6 +166,9 @@ impl DictMachine {
             Ok(idx) => {
                 reg.issued.push((idx, s.to_vec()));
                 reg.pushes.push(s.to_vec());
+                if let Err(e) = reg.twin_push(s, idx) {
+                    return Step::Violation(e);
+                }
                 let stored = inner_used(&reg.r) - before;
                 self.tags.push(format!(
                     "push:{}:{}",
@@ -194,6 +216,17 @@ impl DictMachine {
             return None;
         }
         let count = src.counts.iter().find(|(k, _)| k.as_slice() == s).map(|x| x.1).unwrap_or(0);
+        // exact statistics: the strictly most frequent string is the first to receive a free tag
+        if src.exact && src.first_bytes < 256 && stored != 1 && count > 0 {
+            let runner_up = src.counts.iter().filter(|(k, _)| !k.is_empty() && k.as_slice() != s).map(|x| x.1).max().unwrap_or(0);
+            if count > runner_up {
+                return Some(format!(
+                    "{} is the most frequent string of the source regions ({count} pushes, every other string at most {runner_up}; {} pushes in all, exact statistics, a free tag existed), but occupies {stored} bytes instead of 1",
+                    show_bytes(s),
+                    src.total
+                ));
+            }
+        }
         if 2 * count > src.total && src.first_bytes < 256 && stored != 1 {
             return Some(format!(
                 "{} made up {count} of the {} pushes of the source regions (a free tag existed: {} distinct first bytes), but occupies {stored} bytes instead of 1",
@@ -251,13 +284,42 @@ impl DictMachine {
             }
         }
         let gen = srcs.iter().map(|s| s.gen).max().unwrap_or(0) + 1;
+        let exact = srcs.iter().all(|s| s.pushes.len() < 1024)
+            && srcs
+                .iter()
+                .map(|s| s.pushes.iter().filter(|p| !p.is_empty()).collect::<std::collections::BTreeSet<_>>().len())
+                .sum::<usize>()
+                < 1024;
         let merged = guard(|| R::merge_regions(srcs.iter().map(|s| &s.r)));
         let merged = match merged {
             Ok(m) => m,
             Err(p) => return Step::Violation(format!("merge_regions panicked: {p}")),
         };
+        // C08: a source that was cleared earlier counts like a fresh region that received the same pushes
+        if srcs.iter().any(|s| s.twin.is_some()) {
+            let fresh = guard(|| R::merge_regions(srcs.iter().map(|s| s.twin.as_ref().unwrap_or(&s.r))));
+            match fresh {
+                Ok(f) => {
+                    // observable: which strings are dictionary entries (stored in one byte) and which first bytes
+                    // are bound tags (refused as literals); the entry -> tag assignment itself is not
+                    let (a, b) = (merged.verif_codec().verif_dictionary(), f.verif_codec().verif_dictionary());
+                    if a.iter().map(|e| &e.0).ne(b.iter().map(|e| &e.0)) || merged.verif_codec().verif_bound_tags() != f.verif_codec().verif_bound_tags() {
+                        let first = a.iter().zip(b.iter()).position(|(x, y)| x.0 != y.0).unwrap_or(a.len().min(b.len()));
+                        return Step::Violation(format!(
+                            "merge_regions over a region that was cleared earlier learns a different dictionary than over a fresh region that received the same pushes: {} vs {} entries, first difference at entry {first}: {:?} vs {:?}",
+                            a.len(),
+                            b.len(),
+                            a.get(first).map(|e| format!("{} as tag {}", show_bytes(&e.0), e.1)),
+                            b.get(first).map(|e| format!("{} as tag {}", show_bytes(&e.0), e.1))
+                        ));
+                    }
+                    self.tags.push("merge:cleared-source-vs-fresh".into());
+                }
+                Err(p) => return Step::Violation(format!("merge_regions over fresh twins of the sources panicked: {p}")),
+            }
+        }
         let mut reg = Reg::new(merged, gen);
-        reg.sources = Some(Sources { counts, total, first_bytes: firsts.len() });
+        reg.sources = Some(Sources { counts, total, first_bytes: firsts.len(), exact });
         if self.pool.len() < 3 {
             self.pool.push(reg);
             self.cur = self.pool.len() - 1;
@@ -286,6 +348,9 @@ impl DictMachine {
                         Ok(idx) => {
                             reg.issued.push((idx, s.to_vec()));
                             reg.pushes.push(s.to_vec());
+                            if let Err(e) = reg.twin_push(s, idx) {
+                                err.borrow_mut().get_or_insert(e);
+                            }
                         }
                         Err(p) if !ambiguous => {
                             err.borrow_mut().get_or_insert(format!("push({}) as item #{} panicked: {p}", show_bytes(s), reg.pushes.len()));
@@ -388,6 +453,43 @@ impl DictMachine {
                 train(reg, &[(b"dominant", 1500)]);
                 self.seed_merge(1);
             }
+            9 => {
+                // two sources with 300 distinct strings each (three pushes each); a string both share is pushed
+                // twice into each: below the 256 heaviest of either source, the most frequent over both
+                let mut second = Reg::new(R::default(), 0);
+                for i in 0..300 {
+                    let (a, b) = (format!("a{i:03}").into_bytes(), format!("b{i:03}").into_bytes());
+                    train(&mut self.pool[0], &[(&a, 3)]);
+                    train(&mut second, &[(&b, 3)]);
+                }
+                train(&mut self.pool[0], &[(b"shared by both sources", 2)]);
+                train(&mut second, &[(b"shared by both sources", 2)]);
+                self.pool.push(second);
+                self.seed_merge(0b11);
+            }
+            10 => {
+                // a region with a past: trained, merged from, cleared; then more than 1024 pushes of more than 512
+                // distinct strings, so that what the heavy-hitter summary keeps matters
+                train(&mut self.pool[0], &[(b"old", 5), (b"older", 2)]);
+                let r = &mut self.pool[0];
+                r.r.clear();
+                r.issued.clear();
+                r.pushes.clear();
+                r.twin = Some(R::default());
+                for i in 0..1100 {
+                    let s = format!("k{i:04}").into_bytes();
+                    train(&mut self.pool[0], &[(&s, 1)]);
+                }
+                for i in 0..200 {
+                    let s = format!("k{i:04}").into_bytes();
+                    train(&mut self.pool[0], &[(&s, 1)]);
+                }
+                for i in 600..800 {
+                    let s = format!("k{i:04}").into_bytes();
+                    train(&mut self.pool[0], &[(&s, 2)]);
+                }
+                self.seed_merge(1);
+            }
             _ => {}
         }
         if self.seed_error.is_none() {
@@ -406,6 +508,9 @@ struct Sources {
     counts: Vec<(Vec<u8>, usize)>,
     total: usize,
     first_bytes: usize,
+    /// no heavy-hitter summary involved can have been compacted (fewer than 1024 pushes per source and
+    /// fewer than 1024 summary entries over all sources): the statistics are exact counts
+    exact: bool,
 }
 
 pub fn show_bytes(s: &[u8]) -> String {
@@ -485,6 +590,7 @@ impl Machine for DictMachine {
                 reg.pushes.clear();
                 reg.sources = None;
                 reg.gen = 0;
+                reg.twin = Some(R::default());
                 Step::Ok
             }
             o if (OP_SWITCH..OP_MERGE).contains(&o) => {
